@@ -4,7 +4,10 @@ Proof      : coq/Props/C12.v over Gen/GenFilter.v (the expression _build_conditi
              to_pyarrow_compute_expression) and Gen/GenFilterConst.v (operator alias table, between /
              is_null alias tuples), REGENERATED from filters.py on every run; Model/Filter.v (pyarrow
              primitive semantics eval3, parse, the read pipelines of transaction.py after the repairs).
-Oracles    : implementation only, judged by harness/lib/sqlref.py (plain Python, no datashard import):
+Oracles    : implementation only, judged by harness/lib/sqlref.py (plain Python, no datashard import); the oracle tables also
+             carry column types for which the writer stores NO bounds (binary, fixed: bytes, compared lexicographically) next to
+             columns with bounds, in several files -- wrong pruning on absent statistics makes every API agree on a wrong (empty)
+             answer, which only the SQL reference sees.  These kinds are oracle-only (the Coq `value` type has no bytes kind).
                e2e        random schemas / file layouts / filters / projections x 12 API variants
                           (scan, scan(parallel=2), scan_batches(1|3|10000), iter_records, each with
                           verify_checksums on/off): all variants agree, and equal the reference
@@ -33,7 +36,35 @@ from typing import Any, Dict, List, Optional, Tuple
 
 from harness.lib import coqbuild, sqlref
 from harness.lib.coqio import C, Some, coq_string
-from harness.lib.values import DOMAIN, LITERALS, NAN, same, val_json, val_to_coq, val_unjson, vals_to_coq
+from harness.lib import values as _values
+from harness.lib.values import LITERALS as _LITERALS, NAN, same, val_to_coq, vals_to_coq
+
+# Column kinds WITHOUT stored bounds (the writer skips binary / fixed in _compute_column_bounds).  The Coq `value`
+# type has no bytes kind: these columns are ORACLE-ONLY (e2e, edges, malformed), judged by harness/lib/sqlref.py;
+# the model correspondences (prims, build, pipelines) keep to MODEL_KINDS.
+BYTES_DOMAIN = [b"", b"a", b"ab", b"b", b"\x00", b"\x00\x01", b"\xff", b"zz"]
+BYTES_LITERALS = [b"", b"a", b"aa", b"ab", b"b", b"c", b"\x00", b"\xff\xff", b"zz"]
+MODEL_KINDS = list(_values.DOMAIN)
+DOMAIN = dict(_values.DOMAIN, binary=BYTES_DOMAIN, fixed=BYTES_DOMAIN)
+LITERALS = list(_LITERALS) + BYTES_LITERALS
+NOBOUNDS_KINDS = ["binary", "fixed"]
+
+
+def val_json(v):
+    if isinstance(v, (bytes, bytearray)):
+        return {"k": "bytes", "v": bytes(v).hex()}
+    if isinstance(v, (list, tuple)):
+        return {"k": "list", "v": [val_json(i) for i in v]}
+    return _values.val_json(v)
+
+
+def val_unjson(j):
+    if j["k"] == "bytes":
+        return bytes.fromhex(j["v"])
+    if j["k"] == "list":
+        return [val_unjson(i) for i in j["v"]]
+    return _values.val_unjson(j)
+
 
 LEVEL = "proof"
 THEOREMS = ["C12_compile_correct", "C12_compile_total", "C12_conj", "C12_api_agree", "C12_api_sql", "C12_typed_evaluates", "C12_refused_raises",
@@ -64,13 +95,15 @@ MANIFEST_ENTRY = {
 OPS = ["EQ", "NE", "LT", "LE", "GT", "GE", "IN", "NOT_IN", "IS_NULL", "IS_NOT_NULL"]
 SCALAR_OPS = ["EQ", "NE", "LT", "LE", "GT", "GE"]
 CMPOP = {"EQ": "CEq", "NE": "CNe", "LT": "CLt", "LE": "CLe", "GT": "CGt", "GE": "CGe"}
-KINDS = list(DOMAIN)
+KINDS = MODEL_KINDS                 # kinds the Coq model covers (correspondences)
+E2E_KINDS = MODEL_KINDS + NOBOUNDS_KINDS * 2   # oracle tables: no-bounds kinds next to kinds with bounds, over-weighted
 
 
 def arrow_type(kind: str):
     import pyarrow as pa
     return {"long": pa.int64(), "int": pa.int32(), "double": pa.float64(), "float": pa.float32(), "string": pa.string(),
-            "boolean": pa.bool_(), "timestamp": pa.timestamp("us"), "date": pa.date32(), "time": pa.time64("us")}[kind]
+            "boolean": pa.bool_(), "timestamp": pa.timestamp("us"), "date": pa.date32(), "time": pa.time64("us"),
+            "binary": pa.binary(), "fixed": pa.binary()}[kind]
 
 
 def canon_cell(kind: str, v: Any) -> Any:
@@ -444,6 +477,14 @@ def report(ctx, verdict, case, flt, columns, results, source: str) -> None:
     elif key == "malformed-accepted":
         acc = [n_ for n_, r_ in results.items() if r_[0] != "raises"]
         sub = ("scan" if all(n_.startswith("scan(") for n_ in acc) else "other") + ("-empty-table" if not case["files"] else "-populated-table")
+    elif key == "wrong-rows":
+        got = list(next(iter(results.values()))[1]) if next(iter(results.values()))[0] == "rows" else []
+        try:
+            exp = sqlref.canon_rows(sqlref.expected_rows([r for f in case["files"] for r in f], sqlref.atoms(flt), columns))
+        except Exception:  # noqa: BLE001
+            exp = []
+        missing, extra = [r for r in exp if r not in got], [r for r in got if r not in exp]
+        sub = "rows-missing" if missing and not extra else "rows-extra" if extra and not missing else "rows-missing-and-extra"
     ops = sub
     ctx.violation(f"{key}:{ops}", f"[{source}] filter {sqlref.filter_py(flt)!r} columns={columns}: {text}",
                   case_json(case, flt, columns, {"verdict": key, "results": {k: list(v) if v[0] == "raises" else [v[0], list(v[1])] for k, v in results.items()}}))
@@ -539,7 +580,7 @@ def edge_filters(kind: str) -> List[List[Tuple[str, Tuple]]]:
 
 def oracle_edges(ctx) -> None:
     n = 0
-    for kind in KINDS:
+    for kind in MODEL_KINDS + NOBOUNDS_KINDS:
         dom = [canon_cell(kind, v) for v in DOMAIN[kind]]
         rows = [{"c0": v, "c1": i % 3} for i, v in enumerate(dom)] + [{"c0": None, "c1": 1}, {"c0": dom[0], "c1": None}, {"c0": None, "c1": None}]
         case = {"cols": ["c0", "c1"], "kinds": [kind, "long"], "files": [rows[:2], rows[2:], [dict(rows[0])]]}
@@ -565,7 +606,7 @@ def oracle_e2e(ctx) -> None:
     stats = {"all_raise": 0, "empty_result": 0, "nonempty_result": 0, "projected": 0, "empty_tables": 0}
     opmix: Dict[str, int] = {}
     for t in range(ntables):
-        case = gen_table_case(rng, KINDS, cross=0.15, malformed=0.1)
+        case = gen_table_case(rng, E2E_KINDS, cross=0.15, malformed=0.1)
         if not case["files"]:
             stats["empty_tables"] += 1
         path = os.path.join(ctx.scratch, f"t{t}")
@@ -695,8 +736,9 @@ def corr_prims(ctx) -> None:
     import pyarrow as pa
     rng = ctx.rng
     cases: List[Tuple[str, Tuple]] = []
-    for kind, dom in DOMAIN.items():
-        lits = LITERALS + [d for d in dom if not any(same(d, l) for l in LITERALS)]
+    for kind in MODEL_KINDS:
+        dom = DOMAIN[kind]
+        lits = list(_LITERALS) + [d for d in dom if not any(same(d, l) for l in _LITERALS)]
         for op in SCALAR_OPS:
             for lit in (lits if ctx.tier == "thorough" else rng.sample(lits, 9)):
                 cases.append((kind, ("cmp", op, ("val", lit))))
@@ -848,7 +890,7 @@ def gen_model_literal(rng, kind: str, cross: float) -> Any:
     """Literals the model decides exactly: same kind and exactly representable, or certainly-refused cross kind."""
     for _ in range(50):
         v = gen_literal(rng, kind, cross)
-        if not refusable_pair(kind, v):
+        if isinstance(v, bytes) or not refusable_pair(kind, v):
             continue
         if isinstance(v, float) and kind == "float" and not sqlref.f32_exact(v):
             continue
@@ -1046,7 +1088,7 @@ def corr_pipelines(ctx) -> None:
 
 # =================================================================================== driver
 def run(ctx) -> None:
-    ctx.rule = ("oracle: random tables (1-3 columns over 9 column types, 0-4 files, NULL / NaN / inf / single-valued files) x random filters "
+    ctx.rule = ("oracle: random tables (1-3 columns over 9 column types plus binary / fixed columns without stored bounds, 0-4 files, NULL / NaN / inf / single-valued files) x random filters "
                 "(all operator spellings in random case, between, in/not_in with empty / NULL-containing / cross-kind sets, is_null aliases, "
                 "conjunctions, 8% malformed) x projections x 12 API variants, judged by an independent SQL evaluator; a case is distinct by "
                 "its (files, filter, projection); correspondence: pyarrow primitives on exhaustive small domains, parser on enumerated + "
